@@ -16,6 +16,10 @@ def python_evaluate(s: str) -> int:
     try:
         val = eval(s)
         if isinstance(val, int):
+            # The value is displayed in error messages and traces:
+            # it must be possible to convert it to a string
+            # (ValueError if it exceeds the limit for integer string conversion)
+            str(val)
             return val
         else:
             raise NotAnIntegerException(s)
